@@ -162,7 +162,7 @@ func verifyProofData(keys, values []*felt.Felt) error {
 	}
 
 	for i := range keys {
-		if i < len(keys)-1 && keys[i].Cmp(keys[i+1]) > 0 {
+		if i < len(keys)-1 && keys[i].Cmp(keys[i+1]) >= 0 {
 			return errors.New("keys are not monotonic increasing")
 		}
 
